@@ -94,6 +94,8 @@ func (c14) Gen(r *core.Rng, tier string, idx int) *core.Trace {
 	}
 	t.Cfg["startB"] = core.PickOf[int64](r, 0, 512, 4096, 1<<20, 5<<30)
 	t.Cfg["jump0"] = core.PickOf[int64](r, 1, 59, 3600, 86400*14, 86400*365*7, 86400*365*40)
+	// the second process also runs in another local time zone (quarter hours east of UTC)
+	t.Cfg["tzB"] = core.PickOf[int64](r, 0, -14, 23, -32, 52, r.Range(-48, 56))
 	t.Cfg["jumpEvery"] = r.Range(1, 5)
 	t.Cfg["jumpSec"] = core.PickOf[int64](r, 1, 2, 61, 86400, 86400*400)
 	return t
@@ -119,6 +121,9 @@ func RunC14Child(traceFile, mode string) string {
 		os.Unsetenv("SOURCE_DATE_EPOCH")
 	}
 	jumps := 0
+	if tz := t.I("tzB"); mode != "A" && tz != 0 && tz >= -48 && tz <= 56 {
+		time.Local = time.FixedZone("SIM", int(tz)*900)
+	}
 	if mode != "A" {
 		time.Sleep(time.Duration(t.I("jump0")) * time.Second)
 		jumps++
@@ -182,6 +187,13 @@ func RunC14Child(traceFile, mode string) string {
 				for e := int64(0); e < 4; e++ {
 					ent := d.Peek(446+16*e, 16)
 					if ent[4] == 0 {
+						// an unused slot as some tools leave it when a partition is deleted: the type is cleared, the
+						// addresses stay
+						if chs[e*6]&1 == 1 {
+							d.Poke(446+16*e+1, chs[e*6:e*6+3])
+							d.Poke(446+16*e+5, chs[e*6+3:e*6+6])
+							d.Poke(446+16*e+8, core.PatternBytes(t.Seed^0xde1^uint64(e), 8))
+						}
 						continue
 					}
 					d.Poke(446+16*e+1, chs[e*6:e*6+3])
